@@ -179,6 +179,14 @@ func (s *Server) SetBaseRV(n int) {
 	}
 }
 
+// ZeroRV: a fresh store whose version counter has not moved yet (fixtures loaded
+// into it carry version "0").
+func (s *Server) ZeroRV() {
+	if len(s.log) == 0 {
+		s.rv = 0
+	}
+}
+
 // BaseRVs is the menu scenarios draw from (0 = the default, 10).
 var BaseRVs = []int{0, 0, 0, 0, 5, 85, 95, 97, 985, 9990, 99990, 1<<31 - 20, 1<<32 - 20, 1<<53 - 20}
 
@@ -221,9 +229,8 @@ func (s *Server) Apply(o Spec) Spec {
 // look: no uid, and the same resourceVersion as everything else loaded with it
 // (the version counter does not move).
 func (s *Server) ApplyFixture(o Spec) Spec {
-	if s.rv == 0 {
-		s.rv = 1
-	}
+	// (with a fresh store that one version is "0", as fixtures without a version
+	// of their own are commonly numbered)
 	o = o.Clone()
 	o.RV = strconv.Itoa(s.rv)
 	o.UID = ""
